@@ -217,6 +217,11 @@ func exec(t *testing.T, w WL, cfg simrt.Config) simh.Outcome {
 						var o out
 						switch op.K {
 						case "stats":
+							// the size statistic is a lock-free counter, but whoever reads it, whenever, sees a number of
+							// entries the cache can hold: never negative, never above the capacity
+							if sz := c.Stats().Size(); (sz < 0 || sz > int64(effCap(w))) && sizeBad == "" {
+								sizeBad = fmt.Sprintf("a concurrent reader saw the size statistic at %d; the cache holds at most %d entries", sz, effCap(w))
+							}
 							before := c.Stats().Size()
 							comb := c.Stats().Combined(aux.Stats())
 							if solo && comb.Size() != before+2 && sizeBad == "" {
